@@ -19,6 +19,7 @@ RUNNER = "tablerect_runner.py"
 ERRMAP = {"KeyError": "EKey", "IndexError": "EIndex", "TypeError": "EType", "ValueError": "EValue", "NameError": "EName"}
 POOL = ["a", "b", "c", "d", "e"]
 KINDS = ["float", "int", "str", "obj"]
+DERIVE = ("rows", "cols", "addself", "addrows", "mul", "copy", "t", "concat")
 EXPRS = ["{x}+{y}", "{x}+2*{y}", "{x}-{y}", "{x}*{y}", "2*{x}", "-{x}", "({x}+{y})*{x}", "{x}-3*{y}+1"]
 
 
@@ -84,8 +85,11 @@ def gen_case(rng, maxops=6):
     if n:
         data[0][2] = [rng.choice(["ip", "mq", "mb", "d"]) + str(rng.randint(1, 3)) for _ in range(n)]
     scal = []
+    # a fifth of the cases concentrate on one source table: selections, assignments
+    # (mostly to its scalar entries: scalar -> column promotion and back) and deletions
+    focus = rng.random() < 0.2
     for s in ["s1", "s2"]:
-        if rng.random() < 0.5:
+        if focus or rng.random() < 0.5:
             scal.append(s)
             data.append([s, "scalar", rand_scalar(rng)])
     if rng.random() < 0.15:
@@ -114,9 +118,15 @@ def gen_case(rng, maxops=6):
     if not valid:
         return case
     tr = Track(cols, n, "name", scal)
-    for _ in range(rng.randint(1, maxops)):
+    # how often a derivation is made from the current table while that table
+    # stays current (selections and assignments interleaved on one source)
+    stay_p = 1.0 if focus else rng.choice([0.0, 0.4, 0.7, 1.0])
+    for _ in range(rng.randint(3 if focus else 1, maxops if stay_p == 0.0 else maxops + 2)):
         k = rng.random()
+        if focus and rng.random() < 0.85:
+            k = rng.choice([rng.uniform(0, 0.38), rng.uniform(0.81, 0.95)])
         op = None
+        saved = Track(tr.cols, tr.n, tr.index, tr.scalars)
         if k < 0.2:
             s, m = gen_sel(rng, tr.n)
             op = ["rows", s]
@@ -170,41 +180,47 @@ def gen_case(rng, maxops=6):
                 tr.n, tr.scalars = tot, set()
             elif tot > 60:
                 op = None
-        elif k < 0.93:
-            z = rng.random()
+        elif k < 0.90:
+            # assignment: the key is drawn from one pool whatever it currently is
+            # (a column, a scalar entry, a non-column array, or absent)
             names = tr.names()
-            if z < 0.5:
-                c = rng.choice(names)
-                kind = dict(tr.cols)[c]
-                y = rng.random()
-                if y < 0.75:
-                    op = ["set", c, ["arr", kind, rand_vals(rng, kind, tr.n)]]
-                elif y < 0.85:
-                    op = ["set", c, ["arr", kind, rand_vals(rng, kind, tr.n + rng.choice([1, 2]))]]
-                elif y < 0.92:
-                    op = ["set", c, ["arr", kind, rand_vals(rng, kind, 1)]]
+            key = rng.choice(names + sorted(tr.scalars) * (4 if focus else 2) + POOL + ["s1", "s2"])
+            kinds = dict(tr.cols)
+            kind = kinds.get(key, rng.choice(KINDS if key in POOL else ["float", "int"]))
+            y = rng.random()
+            if key in names:
+                if y < 0.7:
+                    op = ["set", key, ["arr", kind, rand_vals(rng, kind, tr.n)]]
+                elif y < 0.82:
+                    op = ["set", key, ["arr", kind, rand_vals(rng, kind, tr.n + rng.choice([1, 2]))]]
+                elif y < 0.9:
+                    op = ["set", key, ["arr", kind, rand_vals(rng, kind, 1)]]
                 elif kind in ("float", "int"):
-                    op = ["set", c, ["scalar", rng.randint(-4, 4)]]
+                    op = ["set", key, ["scalar", rng.randint(-4, 4)]]
             else:
-                free = [c for c in POOL + ["s1", "s2"] if c not in names]
-                if free:
-                    c = rng.choice(free)
-                    y = rng.random()
-                    kind = rng.choice(KINDS)
-                    if y < 0.6 and c in POOL:
-                        op = ["set", c, ["arr", kind, rand_vals(rng, kind, tr.n)]]
-                        tr.cols.append((c, kind)); tr.scalars.discard(c)
-                    elif y < 0.7 and c in POOL and c not in tr.scalars:
-                        op = ["set", c, ["arr", kind, rand_vals(rng, kind, tr.n + 1)]]
-                        tr.scalars.add(c)
-                    elif c not in POOL or c in tr.scalars:
-                        v = rng.choice([rng.randint(-5, 5), round(rng.uniform(-3, 3), 3)])
-                        op = ["set", c, ["scalar", v]]
-                        tr.scalars.add(c)
+                if y < 0.6:      # new column, or a scalar entry promoted to a column
+                    op = ["set", key, ["arr", kind, rand_vals(rng, kind, tr.n)]]
+                    tr.cols.append((key, kind)); tr.scalars.discard(key)
+                elif y < 0.7:    # an array of another length: stays / becomes a non-column entry
+                    op = ["set", key, ["arr", kind, rand_vals(rng, kind, tr.n + 1)]]
+                    tr.scalars.add(key)
+                else:
+                    op = ["set", key, ["scalar", rng.choice([rng.randint(-5, 5), round(rng.uniform(-3, 3), 3)])]]
+                    tr.scalars.add(key)
+        elif k < 0.95:
+            cand = [c for c in tr.names() if c != tr.index] + sorted(tr.scalars) + (["zz"] if rng.random() < 0.1 else [])
+            if cand:
+                key = rng.choice(cand)
+                op = ["del", key]
+                tr.cols = [(c, kd) for c, kd in tr.cols if c != key]
+                tr.scalars.discard(key)
         else:
             e = gen_expr(rng, tr)
             if e and e[0] not in tr.names():
                 op = ["expr", e[0], rng.choice(["item", "cols"])]
+        if op and op[0] in DERIVE and rng.random() < stay_p:
+            op = ["stay", op]
+            tr = saved
         if op:
             case["ops"].append(op)
     return case
@@ -247,6 +263,9 @@ def emit_ops(case, ctor_obs, obs, N):
     with the implementation-independent rule 'is an identifier'."""
     ops, exps = [], []
     for op, o in zip(case["ops"], obs):
+        stay = op[0] == "stay"
+        if stay:
+            op = op[1]
         k = op[0]
         if k == "expr":
             continue
@@ -269,12 +288,14 @@ def emit_ops(case, ctor_obs, obs, N):
         elif k == "set":
             v = op[2]
             t = f"OSet {cn(N(op[1]))} " + ("(VScalar 0%Z)" if v[0] == "scalar" else f"(VArr {zeros(len(v[2]))})")
+        elif k == "del":
+            t = f"ODel {cn(N(op[1]))}"
         else:
             raise ValueError(op)
         e = emit_shape(o, N)
         if e is None:
             return None
-        ops.append(t); exps.append(e)
+        ops.append(f"OStay ({t})" if stay else t); exps.append(e)
     return ops, exps
 
 
@@ -385,8 +406,11 @@ def shrink(case):
 def run(ctx):
     n = ctx.pick(4000, 150000)
     ctx.rule = (f"{n} random tables (0..8 rows; index + 0..4 float/int/string/object columns; 0-2 scalars; sometimes a non-column array; "
-                "7% malformed constructor arguments) x random chains of <=6 operations among rows[positions|slice|mask], cols[names and "
-                "arithmetic expressions], +, *, Table.concatenate, _copy, _t, column/scalar assignment, t['expr'] / t.cols['expr']; "
+                "7% malformed constructor arguments) x random chains of <=6 (<=8 with stays) operations among rows[positions|slice|mask], cols[names and "
+                "arithmetic expressions], +, *, Table.concatenate, _copy, _t, assignment of arrays/scalars to keys drawn from one pool "
+                "(existing column, scalar entry -> column promotion, new column, new scalar, wrong-length array), del, t['expr'] / t.cols['expr']; "
+                "in 3/4 of the chains derivations are, with probability 0.4/0.7/1, made from a table that stays current, so that "
+                "selections and assignments interleave on one source table; "
                 "non-trivial = at least two successful derivations of different kinds in one chain; distinct by (table, chain)")
     proof_ok = vlib.standard_proof_part(ctx, "props/C14.v", allowed_axioms=(), extra_targets=["run/RunTableRect.vo"])
     cases = [gen_case(ctx.rng) for _ in range(n)]
@@ -395,12 +419,32 @@ def run(ctx):
     dist, errs, lens = {}, {}, {}
     for c, c0, ob in zip(cases, C, O):
         kinds = set()
+        promoted, seen_sel, after_prom = False, False, False
+        scal_now = {k for k, kd, _ in c["data"] if k not in (c["col_names"] or [])}
         for op, o in zip(c["ops"], ob):
+            stay = op[0] == "stay"
+            if stay:
+                op = op[1]
+                dist["stay"] = dist.get("stay", 0) + 1
             dist[op[0]] = dist.get(op[0], 0) + 1
             if o[0] == "err":
                 errs[o[1]] = errs.get(o[1], 0) + 1
-            elif op[0] not in ("set", "expr"):
+                continue
+            if op[0] not in ("set", "expr", "del"):
                 kinds.add(op[0])
+            # scalar -> column promotion between two selections on the same table
+            if op[0] in ("rows", "cols") and stay:
+                if promoted:
+                    after_prom = True
+                seen_sel = True
+            elif op[0] == "set" and seen_sel and op[1] in scal_now and op[1] in [x for x, _ in o[1]["cols"]]:
+                promoted = True
+            elif op[0] in DERIVE and not stay:
+                promoted = seen_sel = False
+            if o[0] == "ok" and op[0] in ("set", "del") or not stay:
+                scal_now = set(o[1]["scalars"])
+        if after_prom:
+            dist["select/promote-scalar/select on one table"] = dist.get("select/promote-scalar/select on one table", 0) + 1
         if c0[0] == "err":
             errs["ctor:" + c0[1]] = errs.get("ctor:" + c0[1], 0) + 1
         lens[len(c["ops"])] = lens.get(len(c["ops"]), 0) + 1
